@@ -15,7 +15,7 @@ def _expr_lits(e, acc):
             _expr_lits(v, acc)
 
 
-def symbol_cells(m):
+def symbol_cells(m, neighbours=True):
     """coarsest partition of 0..255 refining every transition set of the machine; byte constants of
     expressions (and their neighbours) are singled out because $last comparisons depend on them"""
     sig = [[] for _ in range(256)]
@@ -30,7 +30,7 @@ def symbol_cells(m):
     _expr_lits(m['states'], lits)
     single = set()
     for v in lits:
-        single.update(x for x in (v - 1, v, v + 1) if 0 <= x <= 255)
+        single.update(x for x in ((v - 1, v, v + 1) if neighbours else (v,)) if 0 <= x <= 255)
     cells = {}
     for b in range(256):
         key = ('lit', b) if b in single else tuple(sig[b])
@@ -38,9 +38,9 @@ def symbol_cells(m):
     return list(cells.values())
 
 
-def representatives(m, per_cell=1, data_sensitive=False):
+def representatives(m, per_cell=1, data_sensitive=False, neighbours=True):
     reps = set()
-    for cell in symbol_cells(m):
+    for cell in symbol_cells(m, neighbours):
         reps.add(cell[0])
         if per_cell >= 2 and len(cell) > 1:
             reps.add(cell[-1])
@@ -71,6 +71,65 @@ def explore(progs, maxlen=None, post=2, per_cell=1, parallel=4, workers=4, timeo
     reports, stats = runner.run_sharded('MachineMC', cases, render, lambda c: c['mtla'], parallel=parallel, workers=workers,
                                         timeout=timeout, cfg=MC_CFG)
     return reports, stats, cases
+
+
+def cover_inputs(progs, k=12, budget=200000, rng=None, parallel=8, timeout=900, maxlen=None):
+    """Specification-guided inputs (Cover.tla): for every program the shortest symbol histories reaching each
+    distinguishable single-step behaviour of its exported machine.  Returns ({pid: [bytes, ...]}, stats).  At most k
+    inputs per program are kept, chosen so that every step signature (state, successor, result, events - the symbol
+    left out) is reached by at least one of them before a second witness of any signature is taken."""
+    import random as _r
+    rng = rng or _r.Random(1)
+    cases = []
+    for p in progs:
+        syms = representatives(p.m, 1, neighbours=False)
+        if p.flags['EOF_SUPPORT']:
+            syms = syms + [256]
+        cases.append({'p': p, 'syms': syms, 'mtla': p.mtla(), 'maxlen': maxlen if maxlen is not None else depth_for(len(syms), budget, lo=4, hi=12)})
+
+    def render(c):
+        return '[mi |-> @MI@, syms |-> %s, maxlen |-> %d]' % (tla(TSet(c['syms'])), c['maxlen'])
+    reports, stats = runner.run_sharded('Cover', cases, render, lambda c: c['mtla'], parallel=parallel, workers=1,
+                                        timeout=timeout, cfg=MC_CFG, max_bytes=400_000)
+    out = {}
+    nitems = nsig = 0
+    for c, reps in zip(cases, reports):
+        reps = [r for r in reps if r.get('kind') == 'COVER']
+        nitems += len(reps)
+        groups = {}
+        for r in reps:
+            groups.setdefault(json.dumps(r.get('sig')), []).append(tuple(r['hist']))
+        nsig += len(groups)
+        # longest-first over the first witness of every signature: a longer history passes through earlier signatures
+        firsts = sorted((hs[0] for hs in groups.values()), key=lambda h: (-len(h), h))
+        covered = set()
+        chosen = []
+        sig_of = {tuple(r['hist']): json.dumps(r.get('sig')) for r in reps}
+        for h in firsts:
+            if sig_of[h] in covered:
+                continue
+            chosen.append(h)
+            for i in range(1, len(h) + 1):
+                sg = sig_of.get(h[:i])
+                if sg:
+                    covered.add(sg)
+        if len(chosen) > k:
+            # keep the deepest ones and a sample of the rest
+            head = chosen[:k // 2]
+            chosen = head + rng.sample(chosen[k // 2:], k - len(head))
+        elif len(chosen) < k:
+            extra = [hs[-1] for hs in groups.values() if len(hs) > 1 and hs[-1] not in chosen]
+            rng.shuffle(extra)
+            chosen += extra[:k - len(chosen)]
+        ins = []
+        for h in chosen:
+            b = bytes(x for x in h if x != 256)
+            if b not in ins:
+                ins.append(b)
+        out[c['p'].pid] = ins
+    stats['items'] = nitems
+    stats['signatures'] = nsig
+    return out, stats
 
 
 # ---------------------------------------------------------------------------
